@@ -38,7 +38,7 @@ structure Crypto where
 inductive Err
   | eof | unexpectedEOF | auth | zeroLenChunk | firstRead | prefixMismatch | typeMismatch
   | badTimestamp | saltMismatch | zeroRespLen | userNotFound | addr | incompleteHeader
-  | paddingExceeds | fuel | nilDeref | timeout
+  | paddingExceeds | fuel | nilDeref | timeout | srcErr | sinkErr
   deriving DecidableEq, Repr, Inhabited
 
 def Err.name : Err → String
@@ -47,6 +47,7 @@ def Err.name : Err → String
   | .badTimestamp => "bad-timestamp" | .saltMismatch => "salt-mismatch" | .zeroRespLen => "zero-response-length"
   | .userNotFound => "user-not-found" | .addr => "addr" | .incompleteHeader => "incomplete-header"
   | .paddingExceeds => "padding-exceeds" | .fuel => "fuel" | .nilDeref => "panic-nil-deref" | .timeout => "timeout"
+  | .srcErr => "source-error" | .sinkErr => "sink-error"
 
 /-! ### big-endian integers -/
 
@@ -144,6 +145,62 @@ def readFromChunks (cap0 : Nat) : List Bytes → List Bytes
     if p.length = 0 then readFromChunks cap0 ps
     else p.take cap0 :: (splitChunks streamMaxPayloadSize p.length (p.drop cap0) ++ readFromChunks streamMaxPayloadSize ps)
 
+/-! ### `io.Reader` sources handed to `ReadFrom` -/
+
+/-- one result the source wants to return: these bytes and, together with the last of them, this
+error (`none`: nil; `some .eof`: `io.EOF`, the `iotest.DataErrReader` style; `some .srcErr`: another
+error). An item without bytes and without error is a `(0, nil)` read. -/
+structure SrcItem where
+  data : Bytes
+  err : Option Err
+  deriving Repr
+
+abbrev Src := List SrcItem
+
+/-- one `r.Read(buf)` with `len(buf) = cap`: a result longer than the buffer is returned in several
+reads (short reads), the error comes with the last part; an exhausted script returns `(0, io.EOF)` -/
+def Src.read (cap : Nat) : Src → (Bytes × Option Err) × Src
+  | [] => (([], some .eof), [])
+  | it :: rest =>
+    if it.data.length ≤ cap then ((it.data, it.err), rest)
+    else ((it.data.take cap, none), { it with data := it.data.drop cap } :: rest)
+
+def Src.size : Src → Nat
+  | [] => 0
+  | it :: rest => it.data.length + 1 + Src.size rest
+
+/-- the loop of `ShadowStreamConn.ReadFrom`: the chunks written, the error returned (`none`: nil) and
+what is left of the source. The regenerated fact `readFromHandlesDataFirst` says the loop body handles
+`nr > 0` before it looks at `err`; with the fact `false` the model mirrors a loop that drops data
+returned together with an error. -/
+def readFromLoop (cap : Nat) : Nat → Src → List Bytes → List Bytes × Option Err × Src
+  | 0, s, acc => (acc.reverse, some .fuel, s)
+  | f + 1, s, acc =>
+    let ((d, e), s') := s.read cap
+    let acc' := if d.length > 0 && (readFromHandlesDataFirst || e.isNone) then d :: acc else acc
+    match e with
+    | some .eof => (acc'.reverse, none, s')
+    | some e => (acc'.reverse, some e, s')
+    | none => readFromLoop cap f s' acc'
+
+/-- `ShadowStreamConn.ReadFrom(r)` -/
+def connReadFrom (src : Src) : List Bytes × Option Err × Src :=
+  readFromLoop streamMaxPayloadSize (src.size + 1) src []
+
+/-- the first loop of `ShadowStreamServerConn.readFromGeneric`: read until the source hands over
+bytes; these travel with the response header (an error returned together with them is dropped, the
+conn's `ReadFrom` then reads on). `serverFirstReadHandlesDataFirst`: regenerated fact on the order of
+the `nr` / `err` checks in that loop. -/
+def firstData (cap : Nat) : Nat → Src → Option Bytes × Option Err × Src
+  | 0, s => (none, some .fuel, s)
+  | f + 1, s =>
+    let ((d, e), s') := s.read cap
+    if d.length > 0 && (serverFirstReadHandlesDataFirst || e.isNone) then (some d, none, s')
+    else match e with
+      | some .eof => (none, none, s')
+      | some e => (none, some e, s')
+      | none => firstData cap f s'
+
 structure Writer where
   key : Bytes
   nonce : Nat
@@ -234,6 +291,46 @@ def Reader.writeTo (C : Crypto) (r : Reader) : ROut × Reader :=
     if r.left.length = 0 then copyLoop C (r.wire.length + 1) r []
     else copyLoop C (r.wire.length + 1) { r with left := [] } [r.left]
   else copyLoop C (r.wire.length + 1) r []
+
+/-! ### `io.Writer` sinks handed to `WriteTo` -/
+
+/-- one result of the sink's `Write(p)`: it takes `min accept (len p)` bytes and returns an error or
+not. The model covers sinks that keep the `io.Writer` contract (fewer bytes than offered only together
+with an error); an exhausted script takes everything. -/
+structure SinkRes where
+  accept : Nat
+  err : Bool
+  deriving Repr
+
+def sinkWrite (sink : List SinkRes) (p : Bytes) : Bytes × Bool × List SinkRes :=
+  match sink with
+  | [] => (p, false, [])
+  | r :: rest => (p.take r.accept, r.err, rest)
+
+/-- the read loop of `WriteTo` against a scripted sink: `nw, err := w.Write(b[:nr]); n += nw;
+if err != nil { return }` — what the sink did not take of the current chunk is gone -/
+def copyLoopSink (C : Crypto) : Nat → Reader → List SinkRes → List Bytes → ROut × Reader × List SinkRes
+  | 0, r, sink, acc => (.copied acc.reverse (some .fuel), r, sink)
+  | fuel + 1, r, sink, acc =>
+    let cr := readChunk C r.key r.nonce r.wire
+    let r' := { r with nonce := cr.nonce, wire := cr.wire }
+    match cr.res with
+    | .error .eof => (.copied acc.reverse none, r', sink)
+    | .error e => (.copied acc.reverse (some e), r', sink)
+    | .ok p =>
+      let (a, e, sink') := sinkWrite sink p
+      if e then (.copied (a :: acc).reverse (some .sinkErr), r', sink')
+      else copyLoopSink C fuel r' sink' (a :: acc)
+
+/-- `ShadowStreamConn.WriteTo(w)` for a scripted sink: the left-over is flushed first
+(`nw, err := w.Write(leftover); c.readStart += nw`: what the sink did not take stays buffered) -/
+def Reader.writeToSink (C : Crypto) (r : Reader) (sink : List SinkRes) : ROut × Reader × List SinkRes :=
+  if writeToFlushesLeftover && r.left.length != 0 then
+    let (a, e, sink') := sinkWrite sink r.left
+    let r1 := { r with left := r.left.drop a.length }
+    if e then (.copied [a] (some .sinkErr), r1, sink')
+    else copyLoopSink C (r.wire.length + 1) r1 sink' [a]
+  else copyLoopSink C (r.wire.length + 1) r sink []
 
 /-- `writeToShadowStreamConn(w)`: the pieces are re-encrypted one chunk each by `w.write` -/
 def Reader.tunnel (C : Crypto) (r : Reader) : ROut × Reader :=
@@ -343,6 +440,15 @@ def SReader.step (C : Crypto) (s : SReader) (op : ROp) : ROut × SReader :=
         let stick := readErrorsSticky && (mid || !boundaryTimeoutRetryable)
         (o.asTimeout, { r := { r' with wire := r'.wire ++ nx }, err := if stick then some .timeout else none, later := rest })
       else (o, { r := r', err := if readErrorsSticky then o.hardErr else none, later := s.later })
+
+/-- `WriteTo` into a scripted sink on the conn with its sticky error (no read deadlines pending): an
+error of the sink is not a read error and is not recorded -/
+def SReader.writeToSink (C : Crypto) (s : SReader) (sink : List SinkRes) : ROut × SReader :=
+  match (if readErrorsSticky then s.err else none) with
+  | some e => (failedOut .writeTo e, s)
+  | none =>
+    let (o, r', _) := s.r.writeToSink C sink
+    (o, { s with r := r', err := if readErrorsSticky && o.err != some .sinkErr then o.hardErr else none })
 
 /-- cut a wire at offsets (ascending, relative to `pos`) into the stretches between read deadlines -/
 def cutAt : List Nat → Nat → Bytes → List Bytes
@@ -646,18 +752,23 @@ def SWriter.write (C : Crypto) (s : SWriter) (ch : RespChoice) (b : Bytes) : Lis
     let (segs, w') := w.emit C (writeChunks (b.drop cap))
     (seg0 :: segs, { s with w := some w' })
 
-/-- `ShadowStreamServerConn.readFromGeneric(r)` for a source delivering `pieces` -/
-def SWriter.readFrom (C : Crypto) (s : SWriter) (ch : RespChoice) (pieces : List Bytes) : List Bytes × SWriter :=
+/-- `ShadowStreamServerConn.readFromGeneric(r)`: segments written, the writer, the error returned and
+the rest of the source -/
+def SWriter.readFrom (C : Crypto) (s : SWriter) (ch : RespChoice) (src : Src) : List Bytes × SWriter × Option Err × Src :=
   match s.w with
-  | some w => let (segs, w') := w.emit C (readFromChunks streamMaxPayloadSize pieces); (segs, { s with w := some w' })
+  | some w =>
+    let (cs, e, rest) := connReadFrom src
+    let (segs, w') := w.emit C cs
+    (segs, { s with w := some w' }, e, rest)
   | none =>
     let cap := firstCap s.respPrefix.length s.psk.length ch
-    match readFromChunks cap pieces with
-    | [] => ([], s)
-    | p0 :: cs =>
+    match firstData cap (src.size + 1) src with
+    | (none, e, rest) => ([], s, e, rest)
+    | (some p0, _, rest) =>
       let (seg0, w) := initWrite C s ch p0
+      let (cs, e, rest') := connReadFrom rest
       let (segs, w') := w.emit C cs
-      (seg0 :: segs, { s with w := some w' })
+      (seg0 :: segs, { s with w := some w' }, e, rest')
 
 /-- reading side of a `ShadowStreamClientConn` -/
 structure CReader where
@@ -815,6 +926,36 @@ def CReader.stepT (C : Crypto) (c : CReader) (now : Int) (started : Bool) (op : 
                 let s0 := installTimeouts r c.touts (c.total - r.wire.length)
                 let (o, s') := SReader.step C s0 (if op = .tunnel then .tunnel else .writeTo)
                 ((o.prepend p), { c'' with r := some s'.r, err := s'.err, later := s'.later, touts := [] })
+
+/-- `ShadowStreamClientConn.WriteTo(w)` (generic path) into a scripted sink, no read deadlines: on the
+first call the first payload chunk goes to the sink in one `Write` (`nw, err := w.Write(…); if err != nil
+{ return }`), then the conn's `WriteTo` -/
+def CReader.writeToSinkS (C : Crypto) (c : CReader) (now : Int) (sink : List SinkRes) : ROut × CReader :=
+  match (if readErrorsSticky then c.err else none) with
+  | some e => (failedOut .writeTo e, c)
+  | none =>
+    match c.r with
+    | some r =>
+      let (o, s') := SReader.writeToSink C { r := r } sink
+      (o, { c with r := some s'.r, err := s'.err })
+    | none =>
+      let (o0, c0) := c.stepT C now true (.read 0)
+      -- reuse the first-call logic of `Read(0 bytes)` for the failures; on success redo it for the copy
+      match initRead C c now with
+      | (.error .eof, c') => (.copied [] none, c')
+      | (.error _, _) => (match o0 with | .fail e => .copied [] (some e) | o => o, c0)
+      | (.ok len, c') =>
+        match firstPayload C c' len with
+        | (.error _, _) => (match o0 with | .fail e => .copied [] (some e) | o => o, c0)
+        | (.ok p, c'') =>
+          match c''.r with
+          | none => (.copied [p] (some .fuel), c'')
+          | some r =>
+            let (a, e, sink') := sinkWrite sink p
+            if e then (.copied [a] (some .sinkErr), { c'' with segs := [], r := some r })
+            else
+              let (o, s') := SReader.writeToSink C { r := r } sink'
+              (o.prepend a, { c'' with r := some s'.r, err := s'.err })
 
 def CReader.readS (C : Crypto) (c : CReader) (now : Int) (n : Nat) : ROut × CReader :=
   c.stepT C now true (.read n)
